@@ -4,7 +4,7 @@ from hypothesis import strategies as st
 from ..runner import Shard, Violation
 from ..tools import ITER_TOOLS
 from ..gen import base_case, features
-from ..core import expect_return, run_async, run_sync, trace_view, first_diff
+from ..core import expect_return, run_async, run_sync, trace_view, first_diff, OPEN_ORDER_TOOLS
 
 PROPERTY = "C05"
 LEVEL = "exploration"
@@ -15,7 +15,8 @@ RULE = (
     "finite prefix for cycle; any child order for tee). Oracle: the full interleaved event log "
     "(pull / item / end-of-source / call with argument identities / yield / stop / raise) of the "
     "asynchronous tool equals that of the stdlib counterpart driven the same way, after deleting "
-    "re-polls of an already exhausted source (they consume nothing). Because the consumer's receipts "
+    "re-polls of an already exhausted source (they consume nothing); for chain / chain.from_iterable the log also "
+    "holds WHEN each re-iterable argument is asked for its iterator (__aiter__ / __iter__). Because the consumer's receipts "
     "are in the log, equality of the logs is equality after every number of steps. "
     "Non-trivial: >= 2 consumer steps and >= 2 items in some source."
 )
@@ -33,7 +34,9 @@ def cases(draw, name, max_len):
     if name != "iter_sentinel":
         for s in case["srcs"]:
             # "aeager": __anext__ consumes when CALLED - calling it ahead of the await is a read-ahead
-            s["fl"] = draw(st.sampled_from(["aclass", "aclass", "aeager"]))
+            # "areiter": an async ITERABLE whose __aiter__ calls are logged ("open"): chain opens its k-th argument
+            # only when it gets there
+            s["fl"] = draw(st.sampled_from(["aclass", "aclass", "aeager", "areiter"]))
     if name == "chain_from_iterable":
         case["params"]["outer"]["fl"] = "aclass"
     for spec in case["fns"].values():
@@ -47,12 +50,13 @@ def check(case):
     bs = run_sync(case)
     ba, outcome = run_async(case)
     expect_return(outcome, f"C05/{tool}")
-    at, stt = trace_view(ba.ctx.log), trace_view(bs.ctx.log)
+    opens = tool in OPEN_ORDER_TOOLS
+    at, stt = trace_view(ba.ctx.log, opens), trace_view(bs.ctx.log, opens)
     d = first_diff(at, stt)
     if d is not None:
         i, x, y = d
         kinds = {(x or ("-",))[0], (y or ("-",))[0]}
-        if kinds & {"pull", "item", "end"}:
+        if kinds & {"pull", "item", "end", "open"}:
             kind = "pull-order"
         elif "call" in kinds:
             kind = "call-order"
